@@ -56,6 +56,22 @@ TouchOK(e, obs) ==
        IN /\ SeqSet(e.touched) \subseteq (tf \cup Allocated(e))
           /\ \A k \in 1 .. Len(e.diff) : e.diff[k][1] \in tf
 
+(* C20 (dynamic): every recursive-region page the mapper touched is one of the pages the
+   property names for this call, and the frame the software MMU reached there is the frame a
+   hardware walk of the specification's tables (before or after the call) reaches *)
+RootVA == FromIndices(0, rix, rix, rix, rix)
+Reach(m, va) == LET w == WalkFrom(m, root, 4, va, TRUE, TRUE, FALSE)
+                IN IF w.k = "mapped" THEN AlignDownV(PhysOf(w), OB) ELSE OnesW
+RecPages(page, s) == {RootVA, RecP3(rix, page)}
+                     \cup (IF s <= 1 THEN {RecP2(rix, page)} ELSE {})
+                     \cup (IF s = 0 THEN {RecP1(rix, page)} ELSE {})
+RecOK(e, obs, pages, anyInRegion) ==
+    \A k \in 1 .. Len(e.mmu) :
+       LET f == e.mmu[k]
+       IN /\ f[3] = 0
+          /\ (IF anyInRegion THEN IndexOf(f[1], 4) = rix ELSE f[1] \in pages)
+          /\ (f[2] = Reach(ent, f[1]) \/ f[2] = Reach(obs, f[1]))
+
 Same == [ok |-> TRUE, ent |-> ent, amap |-> amap, free |-> free, lc |-> << >>]
 Fail == [ok |-> FALSE, ent |-> ent, amap |-> amap, free |-> free, lc |-> << >>]
 
@@ -90,8 +106,8 @@ MapStep(e) ==
        THEN (IF e.res.k = "panic" /\ obs = ent /\ e.allocs = << >> THEN Same ELSE Fail)  \* cannot be identity-mapped
        ELSE IF e.how = 2 /\ e.page # e.frame THEN Fail
        ELSE IF good
-       THEN [ok |-> TouchOK(e, obs) /\ e.dealloc = << >>, ent |-> r.m, amap |-> r.am,
-             free |-> free \ Allocated(e), lc |-> << >>]
+       THEN [ok |-> TouchOK(e, obs) /\ e.dealloc = << >> /\ RecOK(e, obs, RecPages(e.page, e.s), FALSE),
+             ent |-> r.m, amap |-> r.am, free |-> free \ Allocated(e), lc |-> << >>]
        ELSE Fail
 
 SimpleStep(e, r, checkFrame) ==
@@ -101,6 +117,7 @@ SimpleStep(e, r, checkFrame) ==
           /\ NoAllocNoFree(e)
           /\ (e.res.k = "Ok" => (e.res.page = r.page /\ (checkFrame => e.res.frame = r.frame)))
           /\ TouchOK(e, obs)
+          /\ RecOK(e, obs, RecPages(e.page, e.s), FALSE)
        THEN [ok |-> TRUE, ent |-> r.m, amap |-> r.am, free |-> free, lc |-> << >>]
        ELSE Fail
 
@@ -132,6 +149,7 @@ TranslateStep(e) ==
           /\ e.x.tp.k \in r.kinds
           /\ (e.x.tp.k = "Ok" => e.x.tp.frame = r.frame)
           /\ NoAllocNoFree(e) /\ Observed(e) = ent /\ TouchOK(e, ent)
+          /\ RecOK(e, ent, RecPages(Containing(e.va, 0).v, 0), FALSE)
        THEN Same ELSE Fail
 
 CleanStep(e) ==
@@ -146,11 +164,26 @@ CleanStep(e) ==
           /\ obs = exp
           /\ e.allocs = << >> /\ e.newtabs = << >>
           /\ TouchOK(e, ent)
+          /\ RecOK(e, obs, {}, TRUE)
        THEN [ok |-> TRUE, ent |-> exp, amap |-> amap, free |-> free \cup D, lc |-> << e.a, e.b >>]
        ELSE Fail
 
+(* C20: the constructor accepts exactly a table at a recursive address whose slot of that index
+   points (present) to the frame loaded as address-space root; the index it uses is that index *)
+RptNewStep(e) ==
+    LET i4 == IndexOf(e.addr, 4)
+        recursive == IndexOf(e.addr, 3) = i4 /\ IndexOf(e.addr, 2) = i4 /\ IndexOf(e.addr, 1) = i4
+        sl == Decode(e.slot)
+        active == Present(sl) /\ sl.addr = AndW(e.cr3, AddrField)
+        want == IF ~recursive THEN "NotRecursive" ELSE IF ~active THEN "NotActive" ELSE "Ok"
+    IN IF /\ e.k = want
+          /\ (e.k = "Ok" => e.got = i4)
+          /\ \A k \in 1 .. Len(e.instrs) : e.instrs[k].m = "mov_from_cr" /\ e.instrs[k].a = W(3)
+       THEN Same ELSE Fail
+
 Step(e) ==
     CASE e.op = "map" -> MapStep(e)
+      [] e.op = "rpt_new" -> RptNewStep(e)
       [] e.op = "unmap" -> UnmapStep(e)
       [] e.op = "update" -> UpdateStep(e)
       [] e.op = "setflags" -> SetFlagsStep(e)
